@@ -56,10 +56,10 @@ pub fn run(ctx: &Ctx) -> Report {
         &format!("in-bounds-programs[{}]", ctx.variant),
         "C01 programs (all entry points, in-bounds); per call the decoded trace must be (CASET(4) RASET(4) RAMWR pixels?)*, start<=end, end inside the framebuffer under the current address mode, whole pixels, burst <= window area; non-trivial = >=1 group and non-default orientation/offset",
     );
-    run_generated(&mut sec, ctx.seed, ctx.cases(100_000, 2_500_000), ctx.workers, || c01::strategy(gen::ConfigMenu::all_transports(), 8), check, sig);
+    run_generated(&mut sec, ctx.seed, ctx.cases(200_000, 3_000_000), ctx.workers, || c01::strategy(gen::ConfigMenu::all_transports(), 8), check, sig);
     rep.sections.push(sec);
     let mut sec = Section::new(&format!("wild-programs[{}]", ctx.variant), "C02 programs (arbitrary coordinates), same invariant");
-    run_generated(&mut sec, ctx.seed ^ 8, ctx.cases(100_000, 2_500_000), ctx.workers, || c02::strategy(gen::ConfigMenu::all_transports(), 5), check, sig);
+    run_generated(&mut sec, ctx.seed ^ 8, ctx.cases(200_000, 3_000_000), ctx.workers, || c02::strategy(gen::ConfigMenu::all_transports(), 5), check, sig);
     rep.sections.push(sec);
     rep
 }
